@@ -3,3 +3,5 @@ pub mod c02;
 pub mod c03;
 pub mod c05;
 pub mod c10;
+pub mod c11;
+pub mod c04;
